@@ -149,10 +149,15 @@ def run_config(chk, facts):
         for i, a in enumerate(t.args):
             if op_place(a) is None:
                 continue
-            if an.root_local(a) in map_params and t.d["atys"][i].startswith("&mut"):
+            aty = t.d["atys"][i]
+            if an.root_local(a) in map_params and aty.startswith("&mut"):
                 if not any(t.callee.endswith(s) for s in READONLY_MAP):
                     store_sites.add((bb, "call"))
                     return [(True, None)]
+            # a `&mut UriStatus` handed to any function (`mem::replace`, `mem::take`, `mem::swap`, a helper) is a write
+            if aty.replace(" ", "").startswith("&mutincremental_font_transfer::patch_group::UriStatus"):
+                store_sites.add((bb, "call"))
+                return [(True, None)]
         return None
 
     def on_exit(bb, state, rv, env, trace):
